@@ -254,7 +254,8 @@ def run(ctx):
     for ev in rejected:
         a = ids[ev["pkg"]]
         o, d = final[(ev["pkg"], ev["profile"], ev["engine"])]
-        key = "%s|%s" % (cx.signature(o, d), _site(a))
+        # a compilation that did not finish ALONE within the generous limit is a hang of that input
+        key = ("hang:%s" % _site(a)) if o == "timeout" else "%s|%s" % (cx.signature(o, d), _site(a))
         groups.setdefault(key, []).append((a, ev, o, d))
     for key in sorted(groups):
         a, ev, o, d = groups[key][0]
@@ -317,6 +318,7 @@ def run(ctx):
         "release_slice": len(rel_inputs), "full_forc_path_slice": len(full_inputs), "unsupported_by_fast_engine": len(unsupported),
         "suspicious_first": len(suspicious), "confirmed_alone": len([1 for v in confirmed.values() if v[0] not in ("artifacts", "diagnostics")]),
         "not_reproduced_alone": not_reproduced[:50],
+        "inconclusive_timeouts": len([n for n in not_reproduced if n["first"] == "timeout"]),
         "engines_disagree": engines_disagree[:50],
         "rejected_groups": {k: {"count": len(v), "first": v[0][0]["key"]} for k, v in groups.items()},
         "binding_selftest": selftest,
